@@ -2,3 +2,12 @@ import GoguVerif.Theorems.C05
 open GoguVerif.Theorems.C05
 #print axioms queue_step_refines
 #print axioms queue_refines
+#print axioms lqueue_step_refines
+#print axioms lqueue_run_refines
+#print axioms lqueue_refines
+#print axioms fifo_order
+#print axioms peek_is_next_dequeue
+#print axioms dequeue_empty
+#print axioms size_step
+#print axioms size_nonneg
+#print axioms search_iff
